@@ -669,7 +669,7 @@ WBXML_DECLARE(WBXMLError) wbxml_tree_node_add_attr(WBXMLTreeNode *node,
     
     /* Add attribute to list */
     if (!wbxml_list_append(node->attrs, new_attr)) {
-        wbxml_attribute_destroy(attr);
+        wbxml_attribute_destroy(new_attr);
         return WBXML_ERROR_NOT_ENOUGH_MEMORY;
     }
 
